@@ -2,7 +2,7 @@
    get_p_prob, Bs/BsUnc/Bss cores and brier_edges are GENERATED from /repo's verif/metric.py;
    thr_from_ens is the hand model (Model/Brier.v) of the ensemble fallback in Data._get_score. *)
 From Coq Require Import Reals ZArith List Bool.
-From VF Require Import Base.Num Base.Vec Base.Event Gen.Gen_interval Gen.Gen_prob Model.Brier Proofs.RList Proofs.C08_proofs Proofs.C08_cov.
+From VF Require Import Base.Num Base.Vec Base.Event Gen.Gen_interval Gen.Gen_prob Model.Brier Proofs.RList Proofs.C08_proofs Proofs.C08_cov Proofs.C08_murphy.
 Import ListNotations.
 Local Open Scope R_scope.
 
@@ -78,6 +78,13 @@ Print Assumptions C08_brier_skill_score_definition.
 Print Assumptions C08_probability_in_exactly_one_bin.
 Print Assumptions C08_missing_members_ignored.
 
-(* PARTIAL: the Murphy decomposition BS = REL - RES + UNC (for forecasts single-valued per bin) is
-   checked on every run as an identity of the implementation and of the executable model
-   (Model/Brier.v, float instance) by ./check C08; its proof over the binned model is not done. *)
+(* the Murphy decomposition BS = REL - RES + UNC, bin by bin: for the observations o of the cases in one probability bin
+   whose forecasts all equal p, and the overall observed frequency obar,
+     sum (p - o_i)^2 = n (p - mean o)^2 - n (mean o - obar)^2 + sum (obar - o_i)^2
+   (the bin's share of n*BS, n*REL, n*RES and n*UNC).  PARTIAL: the summation over the ten bins of the executable model
+   (Model/Brier.v: place / nanmean) is checked numerically on every run by ./check C08, not proved. *)
+Theorem C08_murphy_identity_per_bin : forall (p obar : R) o, o <> [] ->
+  rsum (map (fun x => (p - x) * (p - x)) o) =
+  nR o * ((p - rmean o) * (p - rmean o)) - nR o * ((rmean o - obar) * (rmean o - obar)) + rsum (map (fun x => (obar - x) * (obar - x)) o).
+Proof. exact murphy_bin_identity. Qed.
+Print Assumptions C08_murphy_identity_per_bin.
